@@ -4,7 +4,8 @@ From NSL Require Import Base.Types Base.Syntax Model.PyNum Model.IR Model.VM Mod
      Proofs.OpsAgree Proofs.LowerExprProofs Proofs.ElabExprProofs Proofs.ReturnExprProofs Proofs.CallAgreeProofs Proofs.LowerStmtProofs Proofs.ElabStmtProofs
      Proofs.StraightLineProofs Proofs.LowerWfProofs Proofs.StraightOptProofs
      Proofs.FlowFuncProofs Proofs.FlowElabProofs Proofs.FlowTableProofs Proofs.FlowSimProofs Proofs.FlowSimExample Proofs.ForwardFlowProofs Harness.FwdFlowLib Proofs.FlowOptProofs
-     Proofs.ForwardFlowFailProofs Proofs.ConstCastFlowProofs Harness.CCLib Proofs.OptPipelineExample Proofs.FlowOptFullProofs.
+     Proofs.ForwardFlowFailProofs Proofs.ConstCastFlowProofs Harness.CCLib Proofs.OptPipelineExample Proofs.FlowOptFullProofs
+     Proofs.LoopLowerProofs Proofs.LoopElabProofs Proofs.LoopSimProofs Proofs.LoopSimExample Proofs.LoopOptProofs Proofs.LoopOptExample Harness.LoopLib.
 From NSLDyn Require Gen_Shapes.
 Import ListNotations.
 
@@ -234,6 +235,35 @@ Example C02_optimiser_example :
    match optimise_func op_F with OOk F'' => Model.IREq.ifunc_eqb (opt_load_after_store (cc_apply op_T (fn_consts op_F ++ op_N) op_F)) F'' | _ => false end = true) /\
   vals_exact (fold_vals op_F (fn_consts op_F ++ op_N)).
 Proof. exact (conj op_plan_shape (conj op_checks op_exact)). Qed.
+
+(** with C01's loop theorem: a source function with conditionals and WHILE LOOPS, lowered and optimised by both passes, returns the
+    reference value; the concrete loop function of C01 (seven blocks, a back edge) passes the optimiser checker and its optimised
+    form returns 7.5 and leaves g = 0 *)
+Theorem C02_loop_source_to_fully_optimised_partial :
+  forall (M : module) (fn : func) (n : nat) (l : list stmt) (e : expr) (tf : tfunc) (F : ifunc),
+    f_body fn = l ++ [SRet (Some e)] -> forallb (wstop n) l = true -> spure e = true ->
+    elab_func (genv_of M) (genvl M) fn = EOk tf -> lower_func (m_structs M) (glnames M) tf = LOk F ->
+    forall tl te, tf_body tf = tl ++ [TRet (Some te)] -> length tl = length l ->
+    forallb tok (flat_map (wtopexprs n) tl ++ [te]) = true ->
+    lits_exact (flat_map tflits (flat_map (wtopexprs n) tl ++ [te])) -> (forall q, In q (flat_map tflits (flat_map (wtopexprs n) tl ++ [te])) -> PrimFloat.eqb q q = true) ->
+    Forall (fresh_decl (glnames M) (argnames fn)) l ->
+    forall T N, cc_hyps_b F T N = true -> vals_exact (fold_vals F (fn_consts F ++ N)) -> flow_hyps_b (cc_apply T (fn_consts F ++ N) F) = true ->
+    let F'' := opt_load_after_store (cc_apply T (fn_consts F ++ N) F) in
+    forall (P : program) (ws : list rval) (g : RefSem.frame) (vs : vmstate),
+      Forall2 (fun p w => has_ty w (fst p)) (f_args fn) ws ->
+      (forall x, In x (map snd (f_args fn)) -> ~ In x (glnames M)) ->
+      (forall x p, find (fun q => String.eqb (fst q) x) (genvl M) = Some p ->
+         num_ty (snd p) /\ exists w, find (fun q => String.eqb (fst q) x) g = Some (fst p, SV w) /\ has_ty w (snd p) /\ slookup x (globals vs) = Some (v_of w)) ->
+      forall fuel fl st', exec_list M fuel (f_body fn) (call_state fn ws g) = ROk (fl, st') ->
+        exists v vs', fl = OReturn (SV v) /\
+          exists K, run K P F'' 0 (call_frame ws (init_regs F'')) vs = Done (v_of v) vs'.
+Proof. exact loop_source_to_fully_optimised. Qed.
+Example C02_loop_example :
+  (optfull_ok lp_F = true /\ Nat.ltb 3 (length (fn_blocks lp_F)) = true) /\
+  match optimise_func lp_F with
+  | OOk F'' => run 200 {| p_funcs := [lp_F]; p_globals := ["g"%string] |} F'' 0 (call_frame lp_ws (init_regs F'')) lp_vs
+  | _ => OutOfFuel end = Done (VFloat 7.5%float) {| globals := [("g"%string, VInt 0)]; hp := [] |}.
+Proof. exact (conj lp_optimiser_ok lp_opt_value). Qed.
 
 Eval compute in "ASSUMPTIONS C02_forwarding_preserves_single_block_functions_partial"%string. Print Assumptions C02_forwarding_preserves_single_block_functions_partial.
 Eval compute in "ASSUMPTIONS C02_straight_line_source_to_optimised_partial"%string. Print Assumptions C02_straight_line_source_to_optimised_partial.
